@@ -4,6 +4,7 @@ package eng
 // raw client with segmentation schedules.
 
 import (
+	"bytes"
 	"math"
 	"context"
 	"encoding/json"
@@ -285,6 +286,9 @@ type RigOpt struct {
 	Ifaces    []string // names of scripted interfaces, registration order
 	Descs     map[string]string
 	Identity  [4]string
+	// ConcurrentReg: the interfaces are registered from goroutines released at the same instant (before serving); the
+	// order in which GetInfo then lists them is whatever it is, but every one of them is listed once and routable
+	ConcurrentReg bool
 }
 
 type Rig struct {
@@ -353,7 +357,36 @@ func newRig(r *fw.Run, o RigOpt) (*Rig, error) {
 	g := &Rig{Svc: svc, Log: newEvLog(r), r: r, done: make(chan error, 1)}
 	g.Reg = &MReg{Vendor: id[0], Product: id[1], Version: id[2], URL: id[3], Names: []string{"org.varlink.service"},
 		Descs: map[string]string{}, Scripted: map[string]bool{}}
+	if o.ConcurrentReg {
+		gate := make(chan struct{})
+		errs := make([]error, len(o.Ifaces))
+		var wg sync.WaitGroup
+		for i, n := range o.Ifaces {
+			desc := defaultDesc(n)
+			if d, ok := o.Descs[n]; ok {
+				desc = d
+			}
+			g.Reg.Descs[n] = desc
+			g.Reg.Scripted[n] = true
+			wg.Add(1)
+			go func(i int, n, desc string) {
+				defer wg.Done()
+				<-gate
+				errs[i] = svc.RegisterInterface(&ScriptDisp{Name: n, Desc: desc, Log: g.Log, Hook: g.hook})
+			}(i, n, desc)
+		}
+		close(gate)
+		wg.Wait()
+		for i, e := range errs {
+			if e != nil {
+				return nil, &probeMismatch{fmt.Sprintf("RegisterInterface(%q), one of %d distinct names registered at the same time on a service that is not serving, returned %v", o.Ifaces[i], len(o.Ifaces), e)}
+			}
+		}
+	}
 	for _, n := range o.Ifaces {
+		if o.ConcurrentReg {
+			break
+		}
 		desc := defaultDesc(n)
 		if d, ok := o.Descs[n]; ok {
 			desc = d
@@ -421,7 +454,60 @@ func newRig(r *fw.Run, o RigOpt) (*Rig, error) {
 		}
 		time.Sleep(500 * time.Microsecond)
 	}
+	if o.ConcurrentReg {
+		// the listing order is the service's choice; it must be a permutation of what was registered
+		got, err := g.listed()
+		want := map[string]int{}
+		for _, n := range o.Ifaces {
+			want[n]++
+		}
+		bad := err != nil || len(got) != len(o.Ifaces)+1 || got[0] != "org.varlink.service"
+		for _, n := range got[min(1, len(got)):] {
+			want[n]--
+		}
+		for _, c := range want {
+			bad = bad || c != 0
+		}
+		if bad {
+			g.Stop()
+			return nil, &probeMismatch{fmt.Sprintf("%d distinct names were registered at the same time (all calls returned nil); GetInfo lists %q (%v)", len(o.Ifaces), got, err)}
+		}
+		g.Reg.Names = got
+	}
 	return g, nil
+}
+
+// listed returns the interface names GetInfo reports on a fresh raw connection.
+func (g *Rig) listed() ([]string, error) {
+	c, err := net.DialTimeout(g.Net, g.Dial, 5*time.Second)
+	if err != nil {
+		return nil, err
+	}
+	defer c.Close()
+	c.SetDeadline(time.Now().Add(10 * time.Second))
+	if _, err := c.Write([]byte("{\"method\":\"org.varlink.service.GetInfo\"}\x00")); err != nil {
+		return nil, err
+	}
+	var buf []byte
+	tmp := make([]byte, 4096)
+	for {
+		n, err := c.Read(tmp)
+		buf = append(buf, tmp[:n]...)
+		if i := bytes.IndexByte(buf, 0); i >= 0 {
+			var rep struct {
+				Parameters struct {
+					Interfaces []string `json:"interfaces"`
+				} `json:"parameters"`
+			}
+			if err := json.Unmarshal(buf[:i], &rep); err != nil {
+				return nil, err
+			}
+			return rep.Parameters.Interfaces, nil
+		}
+		if err != nil {
+			return nil, err
+		}
+	}
 }
 
 // probeMismatch: the service answered the probe, but not with its GetInfo reply.
